@@ -47,7 +47,7 @@ impl Engine for TrieEngine {
                 p.san = vec![SanTier { name: "miri", shards: 16, cases: if quick { 30 } else { 1000 }, timeout_s: if quick { 1200 } else { 2 * 3600 }, budget_s: if quick { 45 } else { 1200 } }];
             }
             "C15" => {
-                p.cases = if quick { 12_000 } else { 1_000_000 };
+                p.cases = if quick { 12_000 } else { 6_000_000 };
                 p.rule = "case = interleaving of contract-visible state operations (create/delete/delete_prefix/lookup, up to 6 simultaneous iterators on equal, nested and disjoint prefixes, iterator next/delete/key reads, entry read/write/size/resize through valid, stale, forged and wrong-generation handles) in 2-5 segments separated by interrupts (state unchanged / nested change rolled back / state changed); every return code is predicted by the interface model; evaluations = segments; distinct_nontrivial = distinct histories with >= 1 iterator_next and >= 1 interrupt".into();
                 p.floors = vec![
                     ("histories.nontrivial".into(), 500),
